@@ -791,12 +791,221 @@ def r9_validator_whole_seconds(run):
         raise AnchorError('%s: no comparison of the file time with %s.if_modified_since' % (CALL, req))
 
 
+# ---------------------------------------------------------------------------
+# R10
+# ---------------------------------------------------------------------------
+
+RANGE_OWNERS = ('falcon.request.Request', 'falcon.asgi.request.Request')
+SPLITTERS = {'partition', 'rpartition', 'split', 'rsplit'}
+_STR_TO_STR = {'strip', 'lstrip', 'rstrip', 'lower', 'upper', 'casefold', 'replace', 'zfill', 'removeprefix', 'removesuffix', 'ljust', 'rjust', 'format', 'join',
+               'title', 'capitalize', 'swapcase', 'expandtabs', 'center', 'translate'}
+_TO_NUMBER = {'builtins.int', 'builtins.float', 'builtins.len', 'builtins.ord', 'builtins.round', 'builtins.hash', 'math.floor', 'math.ceil', 'math.trunc'}
+_SAME_TYPE = {'builtins.abs', 'builtins.min', 'builtins.max'}
+ORDERING = (ast.Lt, ast.LtE, ast.Gt, ast.GtE)
+
+
+class _BoundTyper:
+    """For an expression of `Request.range`: which of the two bound texts
+    ('F' = before the "-", 'L' = after it) it is computed from, and whether its
+    value is a NUMBER ('num': int()/float()/len() of something, numeric
+    constants, arithmetic on numbers) or still TEXT ('str': the pieces of
+    partition()/split(), str methods, slices and concatenations of text).
+    Through locals by may-reaching definitions; None = not decided."""
+
+    def __init__(self, p, f: Func):
+        from .c15_helpers import reaching
+        self.p, self.f = p, f
+        self.rd = reaching(p, f)
+        self.cfg = self.rd.cfg
+        self.pieces: Dict[int, Dict[str, str]] = {}      # def idx -> role
+        for d in self.rd.defs:
+            if d.kind != 'unpack' or d.node is None:
+                continue
+            st = self.cfg.node(d.node).ast
+            tg = st.targets[0] if isinstance(st, ast.Assign) and len(st.targets) == 1 else getattr(st, 'target', None)
+            v = st.value
+            if not (isinstance(tg, (ast.Tuple, ast.List)) and isinstance(v, ast.Call) and isinstance(v.func, ast.Attribute) and v.func.attr in SPLITTERS
+                    and v.args and isinstance(v.args[0], ast.Constant) and v.args[0].value == '-'):
+                continue
+            names = [x.id if isinstance(x, ast.Name) else None for x in tg.elts]
+            want = 3 if v.func.attr in ('partition', 'rpartition') else 2
+            if len(names) != want:
+                raise UnknownIdiom('%s: %s does not unpack into %d names' % (f.qual, short(st, 80), want))
+            if d.name == names[0]:
+                self.pieces[d.idx] = 'F'
+            elif d.name == names[-1]:
+                self.pieces[d.idx] = 'L'
+            else:
+                self.pieces[d.idx] = 'sep'
+        if not any(r == 'F' for r in self.pieces.values()) or not any(r == 'L' for r in self.pieces.values()):
+            raise AnchorError('%s: the two bound texts (`first, sep, last = <spec>.partition("-")`) were not found' % f.qual)
+
+    def q(self, fexpr):
+        return self.p.resolve_expr(self.f.module, fexpr, self.f)
+
+    def _unpack_elt(self, d):
+        """the element expression bound to d.name by `a, b = (x, y)`; else None"""
+        st = self.cfg.node(d.node).ast
+        tg = st.targets[0] if isinstance(st, ast.Assign) and len(st.targets) == 1 else getattr(st, 'target', None)
+        v = st.value
+        if isinstance(tg, (ast.Tuple, ast.List)) and isinstance(v, (ast.Tuple, ast.List)) and len(tg.elts) == len(v.elts) \
+                and not any(isinstance(x, ast.Starred) for x in list(tg.elts) + list(v.elts)):
+            for x, y in zip(tg.elts, v.elts):
+                if isinstance(x, ast.Name) and x.id == d.name:
+                    return y
+        return None
+
+    def roles(self, e, nid, seen=None) -> Set[str]:
+        seen = set() if seen is None else seen
+        out: Set[str] = set()
+        for x in walk_self(e):
+            if isinstance(x, ast.Name) and isinstance(x.ctx, ast.Load):
+                for d in self.rd.at(nid, x.id):
+                    if d.idx in seen:
+                        continue
+                    seen.add(d.idx)
+                    if d.idx in self.pieces:
+                        if self.pieces[d.idx] in ('F', 'L'):
+                            out.add(self.pieces[d.idx])
+                    elif d.kind == 'assign':
+                        out |= self.roles(d.value, d.node, seen)
+                    elif d.kind == 'unpack':
+                        el = self._unpack_elt(d)
+                        out |= self.roles(el if el is not None else d.value, d.node, seen)
+                    elif d.kind == 'aug':
+                        out |= self.roles(d.value.value, d.node, seen) | self.roles(ast.Name(id=x.id, ctx=ast.Load()), d.node, seen)
+        return out
+
+    def typ(self, e, nid, depth=0) -> Optional[str]:
+        if depth > 12:
+            return None
+        if isinstance(e, ast.Constant):
+            if isinstance(e.value, bool):
+                return None
+            if isinstance(e.value, (int, float)):
+                return 'num'
+            if isinstance(e.value, str):
+                return 'str'
+            return None
+        if isinstance(e, ast.JoinedStr):
+            return 'str'
+        if isinstance(e, ast.UnaryOp) and isinstance(e.op, (ast.USub, ast.UAdd)):
+            return 'num' if self.typ(e.operand, nid, depth + 1) == 'num' else None
+        if isinstance(e, ast.BinOp):
+            a, b = self.typ(e.left, nid, depth + 1), self.typ(e.right, nid, depth + 1)
+            if a == b == 'num':
+                return 'num'
+            if isinstance(e.op, ast.Add) and a == b == 'str':
+                return 'str'
+            if isinstance(e.op, ast.Mult) and {a, b} == {'str', 'num'}:
+                return 'str'
+            if isinstance(e.op, ast.Mod) and a == 'str':
+                return 'str'
+            return None
+        if isinstance(e, ast.IfExp):
+            a, b = self.typ(e.body, nid, depth + 1), self.typ(e.orelse, nid, depth + 1)
+            return a if a == b else None
+        if isinstance(e, ast.Subscript):
+            return 'str' if self.typ(e.value, nid, depth + 1) == 'str' else None
+        if isinstance(e, ast.Call):
+            q = self.q(e.func)
+            if q in _TO_NUMBER:
+                return 'num'
+            if q == 'builtins.str':
+                return 'str'
+            if q in _SAME_TYPE and e.args and not e.keywords:
+                ts = {self.typ(a, nid, depth + 1) for a in e.args}
+                return ts.pop() if len(ts) == 1 else None
+            if isinstance(e.func, ast.Attribute) and q is None and e.func.attr in _STR_TO_STR and self.typ(e.func.value, nid, depth + 1) == 'str':
+                return 'str'
+            return None
+        if isinstance(e, ast.Name):
+            ds = self.rd.at(nid, e.id)
+            if not ds:
+                return None
+            ts = set()
+            for d in ds:
+                if d.idx in self.pieces:
+                    ts.add('str')
+                elif d.kind == 'assign':
+                    ts.add(self.typ(d.value, d.node, depth + 1))
+                elif d.kind == 'unpack':
+                    el = self._unpack_elt(d)
+                    if el is not None:
+                        ts.add(self.typ(el, d.node, depth + 1))
+                    else:
+                        v = d.value
+                        ts.add('str' if isinstance(v, ast.Call) and isinstance(v.func, ast.Attribute) and v.func.attr in SPLITTERS else None)
+                elif d.kind == 'aug':
+                    a = d.value
+                    # x op= y keeps x's kind when y has it (the earlier definitions of x are in `ds` or upstream of this one)
+                    ts.add(self.typ(a.value, d.node, depth + 1))
+                else:
+                    ts.add(None)
+            return ts.pop() if len(ts) == 1 else None
+        return None
+
+
+def r10_range_bounds_numeric(run):
+    """`Request.range` hands `_set_range` a pair (first, last) with
+    first <= last for a first-last spec (the static route computes
+    length = last - first + 1 from it without looking again).  That ordering
+    is established by comparing the two bounds AS NUMBERS: every ordering
+    comparison (< <= > >=) that involves a bound of the Range spec has only
+    int()-converted operands (results of int(), locals bound from them,
+    numeric constants) - never the text pieces of the partition, whose
+    lexicographic order differs from the numeric one as soon as the digit
+    counts differ.  W: Range: bytes=10-9 ('9' < '10' is False) is accepted:
+    206 with Content-Range 10-9 / a negative length; bytes=2-10 is answered 400."""
+    p = run.project
+    funcs: List[Func] = []
+    for cq in RANGE_OWNERS:
+        p.cls(cq)
+        g = p.lookup_method(cq, 'range')
+        if g is None:
+            raise AnchorError('%s.range not found' % cq)
+        if g not in funcs:
+            funcs.append(g)
+    rw = 'Range: bytes=10-9 is accepted ("9" < "10" is false as text): 206 with Content-Range 10-9/N or a negative read length; bytes=2-10 is refused with 400'
+    for f in funcs:
+        ty = _BoundTyper(p, f)
+        run.use_cfg(ty.cfg)
+        n_pair = 0
+        for n in ty.cfg.live_nodes():
+            for c in n.walk():
+                if not isinstance(c, ast.Compare):
+                    continue
+                operands = [c.left] + list(c.comparators)
+                for i, op in enumerate(c.ops):
+                    if not isinstance(op, ORDERING):
+                        continue
+                    a, b = operands[i], operands[i + 1]
+                    ra, rb = ty.roles(a, n.id), ty.roles(b, n.id)
+                    if not (ra | rb):
+                        continue
+                    ta, tb = ty.typ(a, n.id), ty.typ(b, n.id)
+                    pair = ast.Compare(left=a, ops=[op], comparators=[b])
+                    if (ra and rb) and (ra | rb) == {'F', 'L'}:
+                        n_pair += 1
+                    text = [short(x) for (x, t, r) in ((a, ta, ra), (b, tb, rb)) if t == 'str' and r]
+                    if not text and (ta is None or tb is None):
+                        raise UnknownIdiom('%s: %s orders a bound of the Range spec against a value whose type (number / text) the rule cannot read'
+                                           % (f.qual, short(pair)))
+                    run.check(not text, 'every ordering comparison on the bounds of a Range spec is between int()-converted values, never between the text pieces '
+                              '(text order differs from numeric order when the digit counts differ)', f, pair, where=f.loc(c),
+                              witness=['%s is still the text of the header (bound from the partition at "-", not converted)' % x for x in text] or None,
+                              runtime_witness=rw)
+        if not n_pair:
+            raise AnchorError('%s: no ordering comparison between the first and the last bound of a first-last Range spec' % f.qual)
+
+
 def check(run):
     run.assume('POSIX path semantics: os.path.sep == "/"; os.path.normpath leaves ".." only as leading components; '
                'os.path.join(D, x) == D + "/" + x for relative x (trusted base of the containment lemma)')
     run.assume('no symlinks below the served directory (excluded by the property)')
     run.assume('os.stat_result.st_size is non-negative')
-    run.assume('Request.range yields (first, last) with last == -1 for open-ended and suffix ranges, first < 0 only for suffix ranges, and first <= last otherwise')
+    run.assume('Request.range yields (first, last) with last == -1 for open-ended and suffix ranges, first < 0 only for suffix ranges, and first <= last otherwise '
+               '(the decision table is C09 R6; that the ordering test is numeric is R10 here)')
     run.rule('R1', r1_containment, 'containment lemma at every _open_file sink', floor=3)
     run.rule('R2', r2_ownership, 'only _open_file opens files; only __call__ calls it; configured paths written only by __init__', floor=9)
     run.rule('R3', r3_range, 'range conservation in _set_range and _BoundedFile.read', floor=28)
@@ -804,7 +1013,8 @@ def check(run):
     # which static route serves a path: most recently registered matching prefix (shared with C02)
     from . import c02 as _c02
 
-    run.rule('R5', _c02.r2_recency, 'static routes are consulted newest-first (head insertion; shared with C02 R2)', floor=6)
+    run.rule('R5', _c02.r2_recency, 'static routes are consulted newest-first in both option modes and are never dropped by a later registration '
+             '(shared with C02 R2)', floor=10)
     # the 304 decision compares the file's mtime with If-Modified-Since as read by http_date_to_dt: neither side may go
     # through the process-local time zone (shared with C09 R4)
     from . import c09 as _c09
@@ -813,3 +1023,5 @@ def check(run):
     run.rule('R6', _c02.r7_static_prefix, 'static route matching uses only the normalised prefix (shared with C02 R7)', floor=1)
     run.rule('R8', r8_opened_is_proved, 'the string opened inside _open_file is its parameter unchanged (the value the containment lemma was proved for)', floor=1)
     run.rule('R9', r9_validator_whole_seconds, 'Last-Modified and the instant compared with If-Modified-Since are the mtime truncated to whole seconds', floor=3)
+    run.rule('R10', r10_range_bounds_numeric, 'Request.range orders the bounds of a Range spec as int()-converted numbers, never as the text pieces '
+             '(establishes first <= last, which _set_range relies on)', floor=2)
